@@ -79,7 +79,7 @@ ASSUMPTIONS = [
 ]
 EXHAUSTIVE = {"quick": False, "thorough": False}
 BUDGET_S = {"quick": 32, "thorough": 380}
-TABLES = ["attrsKw", "defineKw"]
+TABLES = ["attrsKw", "defineKw", "fn_determine_attrs_eq_order", "fn_determine_attrib_eq_order"]
 PARALLEL = True
 
 OPS = ["lt", "le", "gt", "ge"]
